@@ -88,7 +88,7 @@ func (m *Machine) assert(c *Term, label string) {
 		}
 		ob.Verdict = "ground-false"
 		m.captureCex(ob, nil)
-		panic(pathAbort{abortExit, "ground-false assertion " + label})
+		return // the path continues (in the violated state) so that later checks are still made
 	}
 	ob.FreeVars = countVars(c)
 	nc := m.tt.Not(c)
@@ -103,10 +103,9 @@ func (m *Machine) assert(c *Term, label string) {
 		ob.Verdict = "sat"
 		m.captureCex(ob, nc)
 		// continue under the assumption that the assertion holds, if possible
-		if m.check(c) == Unsat {
-			panic(pathAbort{abortExit, "assertion " + label + " fails on every input of this path"})
+		if m.check(c) != Unsat {
+			m.addPC(c)
 		}
-		m.addPC(c)
 	default:
 		ob.Verdict = "unknown"
 		m.addPC(c)
@@ -301,6 +300,8 @@ func registerNatives(P *Program) {
 		return nil
 	})
 	reg(V("UseSolver"), func(fr *frame, a []value) value { fr.m.oneShotKind = fr.m.str(a[0]); return nil })
+	reg(V("TempDir"), func(fr *frame, a []value) value { return "/vfs/" + fr.m.str(a[0]) })
+	reg(V("CleanupTempDirs"), func(fr *frame, a []value) value { return nil })
 	reg(V("IsSymbolic"), func(fr *frame, a []value) value { return fr.m.tt.True })
 	reg(V("Bool"), func(fr *frame, a []value) value { return fr.m.newVar(fr.m.str(a[0]), BoolSort, "bool") })
 	reg(V("U8"), func(fr *frame, a []value) value { return fr.m.newVar(fr.m.str(a[0]), BV(8), "u8") })
